@@ -180,17 +180,35 @@ class Gen:
         two_domains = r.random() < 0.25
         ins = [self.new_sig("in") for _ in range(nin)]
         syncs = [self.new_sig("sync", dom=("b" if two_domains and r.random() < 0.4 else "sys")) for _ in range(nsync)]
-        spec = {"comb": [], "sync": [], "mems": []}
+        spec = {"comb": [], "sync": [], "mems": [], "insts": []}
         combs = []
+        # instances of the harness cell VBLK (see cell_model): inputs are expressions over inputs and registers, outputs are
+        # signals of their own that the rest of the design reads
+        inst_outs = []
+        for _ in range(getattr(self, "n_insts", 0)):
+            pool0 = ins + syncs
+            y, z = self.new_sig("inst"), self.new_sig("inst")
+            self.sigs[y].update({"w": 9, "s": False, "reset": 0})
+            self.sigs[z].update({"w": 7, "s": self.cls != "closed-unsigned", "reset": 0})
+            self._root = True
+            ea = self.expr(pool0, 2, True)
+            self._root = True
+            eb = self.expr(pool0, 2, True)
+            self._root = True
+            es = self.expr(pool0, 2, True)
+            pw = r.choice([3, 4, 8])
+            spec["insts"].append({"P": r.getrandbits(pw), "PW": pw, "PS": False, "MODE": r.choice(["add", "xor"]), "K": r.getrandbits(6),
+                                  "F": r.choice([0.0, 1.0, 3.0, 2.5, 12.75]), "ins": {"a": ea, "b": eb, "s": es}, "outs": {"y": y, "z": z}})
+            inst_outs += [y, z]
         for _ in range(ncomb):
             ci = self.new_sig("comb")
-            pool = ins + syncs + combs
+            pool = ins + syncs + combs + inst_outs
             blocks = []
             for _ in range(r.randint(1, 2)):
                 blocks += self.stmts(ci, pool, 2)
             spec["comb"].append([ci, blocks])
             combs.append(ci)
-        pool = ins + syncs + combs
+        pool = ins + syncs + combs + inst_outs
         for si in syncs:
             blocks = []
             for _ in range(r.randint(1, 2)):
@@ -230,11 +248,42 @@ class Gen:
 
 
 # -------------------------------------------------------------------- instantiate
-def build(spec):
-    """-> (top Module, signals list (index -> Signal), memories list, port dat_r signals)"""
+CELL = "VBLK"
+CELL_IN = {"a": (8, False), "b": (5, False), "s": (6, True)}
+CELL_OUT = {"y": 9, "z": 7}
+
+
+def cell_model(params, ins):
+    """The harness cell VBLK(P, MODE, K, F)(a[8], b[5], s[6] signed -> y[9], z[7]), executed by vsim for the emitted text; the same
+    function written in FHDL is what the simulated twin of the design contains in place of the Instance."""
+    def num(txt, ast):
+        if ast is not None and ast[0] == "const":
+            return ast[2]
+        return int(float(txt))
+    P = num(params["P"][0], params["P"][2])
+    K = num(params["K"][0], params["K"][2])
+    F = int(float(params["F"][0]))
+    mode = params["MODE"][0]
+    if not (mode.startswith('"') and mode.endswith('"')):
+        mode = '"?"'                       # not a string literal: the cell does something else (seen as a disagreement)
+    mode = mode[1:-1]
+    a, b, s_ = ins["a"], ins["b"], ins["s"]
+    if mode == "add":
+        y = a + b * P + K
+    elif mode == "xor":
+        y = a ^ (b << 2) ^ P ^ K
+    else:
+        y = 0x155 ^ a                      # a mode the cell was never given by the design: visible as a disagreement
+    return {"y": y & 0x1ff, "z": (s_ + F) & 0x7f}
+
+
+def build(spec, inline_instances=False):
+    """-> (top Module, signals list (index -> Signal), memories list, port dat_r signals).
+    inline_instances: the instances of the harness cell are replaced by the cell's function written in FHDL (extra port signals are
+    created last, so that all other signals keep their creation order)."""
     sigs = []
     for i, d in enumerate(spec["sigs"]):
-        sigs.append(Signal((d["w"], d["s"]), name="%s%d" % ({"in": "i", "comb": "c", "sync": "r"}[d["kind"]], i), reset=d["reset"],
+        sigs.append(Signal((d["w"], d["s"]), name="%s%d" % ({"in": "i", "comb": "c", "sync": "r", "inst": "x"}[d["kind"]], i), reset=d["reset"],
                            reset_less=d.get("reset_less", False)))
     top = Module()
     top.clock_domains.cd_sys = ClockDomain("sys")
@@ -333,4 +382,19 @@ def build(spec):
             if port.re is not None:
                 top.comb += port.re.eq(E(p["ren"]))
             port_sigs.append(port.dat_r)
+    for ii, ins in enumerate(spec.get("insts", [])):
+        y, z = sigs[ins["outs"]["y"]], sigs[ins["outs"]["z"]]
+        if not inline_instances:
+            top.specials += Instance(CELL,
+                p_P=Constant(ins["P"], (ins["PW"], ins["PS"])), p_MODE=ins["MODE"], p_K=Instance.PreformattedParam("6'd%d" % ins["K"]),
+                p_F=float(ins["F"]),
+                i_a=E(ins["ins"]["a"]), i_b=E(ins["ins"]["b"]), i_s=E(ins["ins"]["s"]), o_y=y, o_z=z)
+        else:
+            pa, pb, ps = Signal(8, name="vblk%d_a" % ii), Signal(5, name="vblk%d_b" % ii), Signal((6, True), name="vblk%d_s" % ii)
+            top.comb += [pa.eq(E(ins["ins"]["a"])), pb.eq(E(ins["ins"]["b"])), ps.eq(E(ins["ins"]["s"]))]
+            if ins["MODE"] == "add":
+                top.comb += y.eq(pa + pb * ins["P"] + ins["K"])
+            else:
+                top.comb += y.eq(pa ^ (pb << 2) ^ ins["P"] ^ ins["K"])
+            top.comb += z.eq(ps + int(ins["F"]))
     return top, sigs, mems, port_sigs
